@@ -16,7 +16,7 @@ open Updog.Go (allDigits)
 
 /-- `newRows` yields group rows exactly when the model's `newRows` does -/
 theorem newRowsGrouped_eq (g : List Bytes) : Gen.newRowsGrouped g = decide (g.length > 0) := by
-  simp [Gen.newRowsGrouped, Go.len]
+  cases g <;> simp [Gen.newRowsGrouped, Go.len] <;> omega
 
 /-- id defaulting of `server.Query`, for positions whose 1-based number fits an int32 -/
 theorem queryId_eq (id idx : Int) (h0 : 0 ≤ idx) (h1 : idx + 1 < 2147483648) :
